@@ -174,7 +174,10 @@ O('conflicts-marker', 1,
   lambda e, s, kw: e.conflicts(e.convert(s[0], ('b', 'c'), _mark), 'a',
                                missing=_MARK, **kw), key='a')
 O('merge', 2, lambda e, s, kw: e.merge(s[0], s[1], key='a', **kw),
-  presorted=False)
+  key='a')
+O('merge-rev', 2, lambda e, s, kw: e.merge(s[0], s[1], key='a', reverse=True,
+                                           **kw),
+  key='a', reverse=True)
 O('pivot', 1, lambda e, s, kw: e.pivot(s[0], 'a', 'b', 'c', _count, **kw),
   key=('a', 'b'))
 O('mergesort', 2, lambda e, s, kw: e.mergesort(s[0], s[1], key='a', **kw),
